@@ -105,6 +105,10 @@ def build(tier):
     out.append(scase("set", "HashSet<Gp<St>>", "Array<Gp<St>>", deps=["Gp", "St"]))
     out.append(scase("map", "BTreeMap<String, Gp<St>>", "{ [key in string]?: Gp<St> }", deps=["Gp", "St"]))
     out.append(scase("map", "HashMap<Ue, Gp<St>>", "{ [key in Ue]?: Gp<St> }", deps=["Gp", "St", "Ue"]))
+    out.append(scase("map", "BTreeMap<Box<Ue>, St>", "{ [key in Ue]?: St }", deps=["St", "Ue"]))
+    out.append(scase("map", "HashMap<std::sync::Arc<Ue>, Vec<Gp<St>>>", "{ [key in Ue]?: Array<Gp<St>> }", deps=["Gp", "St", "Ue"]))
+    out.append(scase("result", "Result<Box<Ue>, std::rc::Rc<St>>", "{ Ok : Ue } | { Err : St }", deps=["St", "Ue"]))
+    out.append(scase("tuple", "(Box<Ue>, Option<std::sync::Arc<St>>)", "[Ue, St | null]", deps=["St", "Ue"]))
     out.append(scase("slice", "Box<[Gp<St>]>", "Array<Gp<St>>", deps=["Gp", "St"]))
     out.append(scase("range", "std::ops::RangeInclusive<Gp<St>>", "{ start: Gp<St>, end: Gp<St>, }", deps=["Gp", "St"]))
     out.append(scase("array", "[Gp<St>; 64]", "[" + ", ".join(["Gp<St>"] * 64) + "]", deps=["Gp", "St"]))
